@@ -84,6 +84,9 @@ func (c *c05Chain) c05LimTx(op c05Op) (*transaction.Transaction, error) {
 		emit.Int(w.BinWriter, 5)
 		emit.Opcodes(w.BinWriter, opcode.PACK)
 		if to == c05ALooper {
+			if op.N+op.P > 200 {
+				return nil, errors.New("lim: too many notifications for the small budget of a transfer to the looper")
+			}
 			fee = 3_0000_0000 // the callback burns whatever is left
 		}
 	}
@@ -255,7 +258,12 @@ func (g *c05Gen) c05LimOps() []c05Op {
 		case 0:
 			own += r.intn(3) // GAS claims of the two sides
 		case 2:
-			own += r.intn(2) // "Vote" and the voter's GAS claim
+			if r.chance(50) {
+				// the voter's GAS is claimed earlier in the same block: "Vote" is the only notification of the call
+				out = append(out, c05Op{T: "nt", F: op.F, To: op.F, A: 0})
+			} else {
+				own += r.intn(2) // "Vote" and the voter's GAS claim
+			}
 		case 3:
 			own += 1 + r.intn(2) // the burn and "CandidateStateChanged"
 		}
@@ -280,8 +288,8 @@ func (g *c05Gen) c05LimOps() []c05Op {
 		if op.P < 0 {
 			op.P = 0
 		}
-		if op.To == c05ALooper && op.K <= 1 && op.N > 150 {
-			op.N = r.intn(150) // the callback burns all the gas anyway
+		if op.To == c05ALooper && op.K <= 1 {
+			op.N, op.P = r.intn(150), r.intn(50) // the callback burns all the gas anyway (small budget)
 		}
 		out = append(out, op)
 	}
